@@ -23,3 +23,18 @@ Print Assumptions C02_cached_attacks_eq_fresh.
 Print Assumptions C02_grun_sound.
 Print Assumptions C02_no_cross_service.
 Print Assumptions C02_gen_moves_congr.
+
+(* ---- closed (Closed.v): gen_congr discharged; the one hypothesis left is that the 64-bit key
+   is collision-free on the boards asked about ---- *)
+From ChessV Require Import Types Board Moves MoveGen.
+From ChessV Require Closed.
+
+Theorem C02_closed_cached_eq_fresh : forall T rook_t bishop_t qs ans st b c,
+  (forall b1 b2, Closed.askable b1 -> Closed.askable b2 -> hash b1 = hash b2 -> Cache.same_pos_noturn b1 b2) ->
+  Forall (fun q => Closed.askable (Cache.req_board q)) qs -> Closed.askable b ->
+  Cache.grun T rook_t bishop_t Cache.gen_state_new qs ans st ->
+  Cache.answer_of (Cache.generate_moves_cached T rook_t bishop_t st b c)
+  = Cache.answer_of (Cache.generate_moves_cached T rook_t bishop_t Cache.gen_state_new b c).
+Proof. exact Closed.C02_closed. Qed.
+
+Print Assumptions C02_closed_cached_eq_fresh.
